@@ -181,22 +181,6 @@ instance (t : Topology) : Decidable (CapsPositive t) := by unfold CapsPositive; 
 instance (t : Topology) : Decidable (GuardedOnReturnPath t) := by unfold GuardedOnReturnPath; infer_instance
 instance (t : Topology) : Decidable (SideConds t) := by unfold SideConds; infer_instance
 
-/-- what the theorems need from a configuration (implied by the side conditions, see Proofs/ConcPacket) -/
-structure Cfg.WF (cfg : Cfg) : Prop where
-  calls : cfg.senderCalls = [.write, .free]
-  closerWaits : cfg.closerWaits = true
-  ecloserWaits : cfg.ecloserWaits = true
-
-structure Cfg.CapsPos (cfg : Cfg) : Prop where
-  out : 0 < cfg.capOut
-  merged : 0 < cfg.capMergedPer
-  errc : 0 < cfg.capErrc
-  merr : 0 < cfg.capMerr
-
-structure Cfg.ReturnGuarded (cfg : Cfg) : Prop where
-  recv : cfg.gEMuxRecv = true
-  send : cfg.gEMuxSend = true
-
 /-- the topology of the tree this framework was written against (what sxfacts is expected to emit);
     used for non-vacuity examples and as the driver's configuration -/
 def reference : Topology :=
@@ -214,3 +198,23 @@ def reference : Topology :=
     workersLoop := true, engineWiring := true, srcErrBranch := true, poolGetInNew := true, poolClearThenPut := true }
 
 end SxVerif.Pipe.Desc
+
+namespace SxVerif.Pipe
+
+/-- what the theorems need from a configuration (implied by the side conditions, see Proofs/ConcPacket) -/
+structure Cfg.WF (cfg : Cfg) : Prop where
+  calls : cfg.senderCalls = [.write, .free]
+  closerWaits : cfg.closerWaits = true
+  ecloserWaits : cfg.ecloserWaits = true
+
+structure Cfg.CapsPos (cfg : Cfg) : Prop where
+  out : 0 < cfg.capOut
+  merged : 0 < cfg.capMergedPer
+  errc : 0 < cfg.capErrc
+  merr : 0 < cfg.capMerr
+
+structure Cfg.ReturnGuarded (cfg : Cfg) : Prop where
+  recv : cfg.gEMuxRecv = true
+  send : cfg.gEMuxSend = true
+
+end SxVerif.Pipe
